@@ -148,7 +148,8 @@ class Session:
         self.log = []
         self.DW = DictWrapper
         self.dicts = [{"i": i} for i in range(4)] + [{}]  # (one record is still empty: it is the dict *object* that is wrapped)
-        self.objs = [Obj(f"g{i}", f"o{i}") for i in range(6)] + [Obj("g0", "o0-twin")]
+        # (two of the keys are falsy - a primary key 0, an empty string: an id is an id)
+        self.objs = [Obj(g, f"o{i}") for i, g in enumerate(["g0", 0, "g2", "", "g4", "g5"])] + [Obj("g0", "o0-twin"), Obj(0, "o1-twin")]
         self.weirds = [Weird(i) for i in range(5)] + [Weird(0)]  # the last one: another object with the hash of the first
         self.counters = {}
         self.max_nodes = 0
@@ -790,6 +791,9 @@ class Session:
             if exc is None:
                 if outcome.why == M.UNIQ:
                     findings.append(Finding("C03:collision_not_refused", f"call would create two siblings with one data_id but returned {ret!r}"))
+                elif outcome.why == M.AMBIG and op["op"] == "set_data":
+                    # "set_data() for clones requires `with_clones` decision" (the library's own wording, pinned by its tests)
+                    findings.append(Finding("C04:ambiguous_not_refused", f"set_data() on a node that has clones, without a with_clones decision, was not refused (returned {ret!r})"))
                 else:
                     self.count(f"invalid_not_refused:{outcome.why}")
                 followed = False
@@ -1142,7 +1146,16 @@ def _gen_kind(s, rng, k, nodes, hostile, allow_unspec):
             op["data"] = n.data  # same object
         else:
             op["data"] = None
-        if hostile and rng.random() < 0.3:
+        if hostile and len(m.with_id(n.data_id)) > 1 and rng.random() < 0.25:
+            # "a new revision of the same record" on a clone: another data object under the id the group has
+            op["data"] = s.mkdata(rng)
+            op["data_id"] = n.data_id
+            if rng.random() < 0.5:
+                twin = [o for o in s.objs if m.rule(o) == n.data_id and o is not n.data] if s.flavour == "obj" else []
+                if twin:
+                    op["data"] = rng.choice(twin)
+                    op.pop("data_id")
+        elif hostile and rng.random() < 0.3:
             sibs = [c for c in m.kids(m.parent_of(n)) if c is not n]
             other = rng.choice(sibs or nodes)
             op["data"] = other.data  # collision with a sibling or merge with another group
